@@ -244,9 +244,16 @@ func trExecTask() string {
 		`t\.pendingFinalTaskStateCh = make\(chan mesos\.TaskState, 1\)`,
 		`taskCmd\.Start\(\)`,
 		`t\.rpc = executorcmd\.NewClient\(`,
-		`\w+, \w+ := t\.rpc\.GetState\(`,
+		`if t\.rpc == nil \{`,
+		`for \{ if t\.rpc == nil \{`,
+		`taskCmd\.Wait\(\)`,
+		`case \w+ = <-t\.pendingFinalTaskStateCh:`,
+		`\w+, \w+ := \w+\.GetState\(`,
 		`if \w+ == "STANDBY" && \w+ == nil \{`,
 		`\} else if \w+ == "DONE" \|\| \w+ == "ERROR" \{`,
+		`syscall\.Kill\(\w+, syscall\.SIGKILL\)`,
+		`syscall\.Kill\(-taskCmd\.Process\.Pid, syscall\.SIGKILL\)`,
+		`taskCmd\.Wait\(\)`,
 		`\} else if \w+ >= startupTimeout \{`,
 		`t\.sendStatus\(t\.knownEnvironmentId, mesos\.TASK_RUNNING, ""\)`,
 		`err = taskCmd\.Wait\(\)`,
